@@ -2,7 +2,10 @@
 package main
 
 import (
+	"encoding/json"
 	"fmt"
+	"os"
+	"os/exec"
 	"reflect"
 	"strings"
 	"time"
@@ -37,9 +40,33 @@ type CustomOuter struct {
 	Ns []*Named
 }
 
+// custom-named AND self-referential
+type NamedNode struct {
+	V    int32
+	Next *NamedNode
+	Kids []*NamedNode
+}
+
+func (NamedNode) HessianCodecName() string { return "com.example.NamedNode" }
+
+// a map whose key type is a struct, empty in the zero witness
+type KeyedMap struct {
+	M map[Leaf]int32
+	N map[string]*Leaf2
+}
+type Leaf2 struct{ Q int32 }
+type Tag2 struct{ T string }
+
+// an inline anonymous struct declared before container fields
+type AnonFirst struct {
+	Meta  struct{ K string }
+	Items []Leaf2
+	Tags  map[string]Tag2
+}
+
 var c16Types = append(append([]reflect.Type{}, zooTypes...),
 	reflect.TypeOf(SelfRef{}), reflect.TypeOf(MutA{}), reflect.TypeOf(SliceOfSlices{}), reflect.TypeOf(CustomOuter{}),
-	reflect.TypeOf(GNode{}), reflect.TypeOf(WithIface{}))
+	reflect.TypeOf(GNode{}), reflect.TypeOf(WithIface{}), reflect.TypeOf(NamedNode{}), reflect.TypeOf(KeyedMap{}), reflect.TypeOf(AnonFirst{}))
 
 // the struct and slice types a value of static type t can contain (statically)
 func staticClosure(t reflect.Type, out map[reflect.Type]bool) {
@@ -115,6 +142,9 @@ func c16Check(c *ctx, t reflect.Type, witness interface{}, wlabel string, seed u
 		if rootElemIsInterface(st) && st.Kind() == reflect.Slice {
 			continue // []interface{} is written untyped; it needs no name
 		}
+		if st.Kind() == reflect.Struct && st.Name() == "" {
+			continue // anonymous struct types are not supported values
+		}
 		wn, ok := wireNameOf(st, nm)
 		if !ok {
 			c.fail("name map is not closed: a reachable type has no wire name", in, st.String(), "")
@@ -153,8 +183,8 @@ func c16Check(c *ctx, t reflect.Type, witness interface{}, wlabel string, seed u
 	// the maps extracted from this witness suffice for every other value of the type
 	for j := 0; j < 3; j++ {
 		other := genValue(t, seed*13+uint64(j)+1, 10+j*40, 30)
-		if holdsInterface(t) {
-			continue // interface contents are dynamic: another value may hold other types
+		if holdsInterface(t) || strings.Contains(t.String(), "AnonFirst") {
+			continue // interface contents are dynamic; anonymous struct types have no class name (outside C01's value space)
 		}
 		var bs []byte
 		var dec interface{}
@@ -180,9 +210,55 @@ func c16Check(c *ctx, t reflect.Type, witness interface{}, wlabel string, seed u
 
 func runC16(c *ctx) {
 	c.rule = "every zoo type plus self-referential, mutually recursive, slice-of-slice, custom-named and interface-holding types x witnesses from the zero value (all pointers nil, all containers nil), the empty-container value, to populated values (3 seeds), incl. cyclic witnesses; ExtractTypeNameMap must finish within a deadline, give every statically reachable struct/slice type a wire name that the type map maps back to it (custom name when declared), and the maps must encode and decode three other values of the type; TypeMapOf(type) must finish and contain every reachable struct type. Distinct by (type, witness); all non-trivial."
-	only := ""
+	only := os.Getenv("HX_C16_ONLY")
 	if rp, ok := c.extra["replay"].(string); ok {
 		only = loadReplay(rp)["type"].(string)
+	}
+	if only == "" {
+		// every type in its own subprocess: a runaway recursion ends in a fatal stack overflow, which
+		// cannot be recovered from inside the process
+		self, _ := os.Executable()
+		for _, t := range c16Types {
+			dir, _ := os.MkdirTemp(c.outDir, "t")
+			cmd := exec.Command("bash", "-c", "ulimit -v 8000000; exec timeout 60 "+self+" C16 -seed "+fmt.Sprint(c.seed)+" -tier "+c.tier+" -out "+dir)
+			cmd.Env = append(os.Environ(), "HX_C16_ONLY="+t.String())
+			out, err := cmd.CombinedOutput()
+			in := map[string]interface{}{"op": "extract", "type": t.String()}
+			b, rerr := os.ReadFile(dir + "/C16.oracle.json")
+			os.RemoveAll(dir)
+			if err != nil || rerr != nil {
+				c.eval(t.String() + "/crash")
+				msg := string(out)
+				if i := strings.Index(msg, "fatal error"); i >= 0 {
+					msg = msg[i:]
+				}
+				c.fail("extraction crashes the process or does not terminate (stack overflow / timeout)", in, truncS(msg, 300), "")
+				continue
+			}
+			var sub struct {
+				Evaluations int            `json:"evaluations"`
+				Failures    []failure      `json:"failures"`
+				Samples     []interface{}  `json:"samples"`
+				Dist        map[string]int `json:"distribution"`
+			}
+			must(json.Unmarshal(b, &sub))
+			for i := 0; i < sub.Evaluations; i++ {
+				c.eval(fmt.Sprint(t.String(), "/", i))
+			}
+			for _, f := range sub.Failures {
+				c.fail(f.What, f.Input, f.Detail, f.Class)
+			}
+			for _, sm := range sub.Samples {
+				c.sample(sm)
+			}
+			for k, v := range sub.Dist {
+				if !strings.HasPrefix(k, "fail") {
+					c.dist[k] += v
+				}
+			}
+		}
+		c16Extras(c)
+		return
 	}
 	for ti, t := range c16Types {
 		if only != "" && t.String() != only {
@@ -236,7 +312,7 @@ func runC16(c *ctx) {
 					}
 					continue
 				}
-				if tmo[st.Name()] != st {
+				if st.Name() != "" && tmo[st.Name()] != st {
 					c.fail("TypeMapOf is not closed: a reachable struct type is missing", in, st.String(), "")
 				}
 			}
@@ -246,6 +322,9 @@ func runC16(c *ctx) {
 		}
 		c.sample(map[string]interface{}{"type": t.String(), "witnesses": labels})
 	}
+}
+
+func c16Extras(c *ctx) {
 	// cyclic witnesses
 	a := &MutA{}
 	b := &MutB{A: a, M: map[string]*MutA{"a": a}}
